@@ -352,8 +352,9 @@ class AffineCorrection(darsia.TransformationCorrection):
 
         # If isometry is turned on, make sure to use the coordinates of voxel centers
         isometry = fit_options.get("isometry", False)
-        if isometry:
+        if isometry and not isinstance(pts_src, darsia.Coordinate):
             pts_src = pts_src.to_voxel_center().to_coordinate(self.coordinatesystem_src)
+        if isometry and not isinstance(pts_dst, darsia.Coordinate):
             pts_dst = pts_dst.to_voxel_center().to_coordinate(self.coordinatesystem_dst)
 
         affine_transformation = AffineTransformation(self.dim)
